@@ -131,15 +131,15 @@ def perturbations(spec, role):
         probing = any(k in ('curve25519-sha256', 'curve25519-sha256@libssh.org', 'diffie-hellman-group-exchange-sha256') for k in spec['kex'])
         hk = spec['hk']
         if probing and 'rsa_bits' in hk and any('rsa' in k for k in spec['key']):
-            for nb in (hk['rsa_bits'] + 1024, hk['rsa_bits'] - 1024):
+            for nb in (hk['rsa_bits'] + 1024, hk['rsa_bits'] - 1024, hk['rsa_bits'] - 1, hk['rsa_bits'] + 8):
                 s = copy.deepcopy(spec)
                 s['hk']['rsa_bits'] = nb
-                out.append(('hostkey-size', 'Host key (', s))
+                out.append(('hostkey-size' if abs(nb - hk['rsa_bits']) > 8 else 'hostkey-size-by-a-few-bits', 'Host key (', s))
         if probing and hk.get('ca') == 'rsa':
-            for nb in (hk['ca_bits'] + 1024, hk['ca_bits'] - 1024):
+            for nb in (hk['ca_bits'] + 1024, hk['ca_bits'] - 1024, hk['ca_bits'] - 1, hk['ca_bits'] - 15):
                 s = copy.deepcopy(spec)
                 s['hk']['ca_bits'] = nb
-                out.append(('ca-size', 'CA signature size', s))
+                out.append(('ca-size' if abs(nb - hk['ca_bits']) > 15 else 'ca-size-by-a-few-bits', 'CA signature size', s))
             s = copy.deepcopy(spec)
             s['hk'] = dict(hk, ca='ed25519')
             out.append(('ca-type', 'CA signature type', s))
@@ -170,6 +170,13 @@ def perturbations(spec, role):
                     s = copy.deepcopy(spec)
                     s['gex'] = g
                     out.append(('modulus-size', 'Group exchange (', s))
+            # (a server that hands out groups by rounding up / leniently: a strict one answers exact requests only, and the tool asks for
+            # round sizes - a group of 3071 bits is then never seen at all, which is the probe sequence's reach and C12's subject)
+            if spec.get('gex_style', P.STRICT) != P.STRICT and spec['gex'] >= 1024:
+                for g in (spec['gex'] - 1, spec['gex'] - 2, spec['gex'] - 3, spec['gex'] - 7):
+                    s = copy.deepcopy(spec)
+                    s['gex'] = g
+                    out.append(('modulus-size-by-a-few-bits', 'Group exchange (', s))
     return out
 
 
